@@ -376,8 +376,14 @@ const SPECIAL_STRINGS: &[&str] = &[
     "\u{ffff}", "\u{10000}", "\u{1F600}", "\u{10ffff}", "null", "true", "false", "NaN", "Infinity", "-Infinity", "0", "-0", "123", "1e5", "1.0",
     "{}", "[]", "{\"Type\":0}", " ", "  lead", "trail  ", "urn:x", "http://opcfoundation.org/UA/", "None", "\\u0041", "\u{d7ff}\u{e000}",
     "a very long string with many characters in it, to make the length two digits and more",
+    // strings that look like another JSON form of the same position: numbers, indexes, node ids, times, guids, base64
+    "5", "65535", "65536", "4294967295", "4294967296", "-1", "+1", "0x10", "i=5", "ns=2;s=x", "nsu=urn:x;i=5", "svr=1;i=5",
+    "2020-01-01T00:00:00.000Z", "1601-01-01T00:00:00Z", "abcdef01-2345-6789-abcd-ef0123456789", "00000000-0000-0000-0000-000000000000", "AQID", "AQ==", "====",
+    "Type", "Body", "Namespace", "ByteString", "XmlElement", "<a b=\"c\">&amp;</a>", "en-US",
 ];
+const LENGTHS: &[usize] = &[30, 47, 54, 56, 62, 63, 74, 75, 94, 126, 127, 190, 254, 255, 300];
 fn gen_string_raw(r: &mut Rng) -> String {
+    if r.chance(1, 40) { let n = *r.pick(LENGTHS) + r.below(3) as usize; return (0..n).map(|i| if i % 17 == 16 { '\u{e9}' } else { (97 + r.below(26)) as u8 as char }).collect(); }
     match r.below(4) {
         0 => r.pick(SPECIAL_STRINGS).to_string(),
         1 => { let n = 1 + r.below(8); (0..n).map(|_| (32 + r.below(95)) as u8 as char).collect() }
@@ -399,6 +405,8 @@ fn gen_bytes_raw(r: &mut Rng) -> Vec<u8> {
         0 => { let n = 1 + r.below(4); r.bytes(n as usize) }
         1 => { let n = 1 + r.below(12); r.bytes(n as usize) }
         2 => { let n = 1 + r.below(6); let b = *r.pick(&[0u8, 255, 0x3e, 0x3f, 0xfb, 0xff]); vec![b; n as usize] }
+        // around the sizes at which an encoder works in blocks or wraps lines (48, 57, 64, 76, 128, 256 ...)
+        _ if r.chance(1, 6) => { let n = *r.pick(LENGTHS) + r.below(3) as usize; r.bytes(n) }
         _ => { let n = 1 + r.below(24); r.bytes(n as usize) }
     }
 }
@@ -679,6 +687,37 @@ fn fixed_cases(tier: &str) -> Vec<Case> {
     for s in [UAString::null(), UAString::from(""), UAString::from("a\"b\\c\n\u{1F600}\u{0}")] {
         c.push(Case::Val(Val::S(s.clone()))); c.push(Case::Val(Val::V(Variant::String(s.clone())))); c.push(Case::Val(Val::V(Variant::XmlElement(s.clone()))));
         c.push(Case::Val(Val::L(LocalizedText { locale: s.clone(), text: UAString::null() }))); c.push(Case::Val(Val::Q(QualifiedName { namespace_index: 0, name: s })));
+    }
+    // every special string in every position that carries a string
+    for s in SPECIAL_STRINGS {
+        let u = UAString::from(*s);
+        c.push(Case::Val(Val::S(u.clone())));
+        c.push(Case::Val(Val::V(Variant::String(u.clone()))));
+        c.push(Case::Val(Val::V(Variant::XmlElement(u.clone()))));
+        c.push(Case::Val(Val::L(LocalizedText { locale: u.clone(), text: u.clone() })));
+        c.push(Case::Val(Val::Q(QualifiedName { namespace_index: 1, name: u.clone() })));
+        c.push(Case::Val(Val::X(ExpandedNodeId { node_id: NodeId::new(0, 7u32), namespace_uri: u.clone(), server_index: 0 })));
+        c.push(Case::Val(Val::X(ExpandedNodeId { node_id: NodeId::new(0, UAString::from("x")), namespace_uri: u.clone(), server_index: 2 })));
+        c.push(Case::Val(Val::V(Variant::ExpandedNodeId(Box::new(ExpandedNodeId { node_id: NodeId::new(0, Guid::null()), namespace_uri: u.clone(), server_index: 0 })))));
+        c.push(Case::Val(Val::EO(ExtensionObject { node_id: NodeId::new(1, 1u32), body: ExtensionObjectEncoding::XmlElement(u.clone()) })));
+        c.push(Case::Val(Val::DI(DiagnosticInfo { symbolic_id: None, namespace_uri: None, locale: None, localized_text: None, additional_info: Some(u.clone()), inner_status_code: None, inner_diagnostic_info: None })));
+        if !s.is_empty() {
+            c.push(Case::Val(Val::N(NodeId::new(2, u.clone()))));
+            c.push(Case::Val(Val::X(ExpandedNodeId { node_id: NodeId::new(0, u.clone()), namespace_uri: UAString::from("urn:x"), server_index: 0 })));
+            c.push(Case::Val(Val::V(Variant::NodeId(Box::new(NodeId::new(0, u.clone()))))));
+        }
+    }
+    // long values: byte strings and strings around the block sizes of encoders and past small buffers
+    for n in [45usize, 47, 48, 49, 56, 57, 58, 63, 64, 65, 75, 76, 77, 96, 127, 128, 129, 255, 256, 257, 1000, 4097] {
+        let b = ByteString::from((0..n).map(|i| (i * 7 + n) as u8).collect::<Vec<u8>>());
+        c.push(Case::Val(Val::B(b.clone())));
+        if n < 300 { c.push(Case::Val(Val::V(Variant::ByteString(b.clone())))); c.push(Case::Val(Val::N(NodeId::new(1, b.clone())))); }
+        if n % 8 == 0 { c.push(Case::Val(Val::EO(ExtensionObject { node_id: NodeId::new(0, 1u32), body: ExtensionObjectEncoding::ByteString(b) }))); }
+    }
+    for n in [127usize, 128, 255, 256, 1000, 4097] {
+        let u = UAString::from((0..n).map(|i| if i % 31 == 30 { '\u{1F600}' } else { (97 + i % 26) as u8 as char }).collect::<String>());
+        c.push(Case::Val(Val::S(u.clone()))); c.push(Case::Val(Val::V(Variant::String(u.clone()))));
+        if n < 300 { c.push(Case::Val(Val::N(NodeId::new(3, u.clone())))); c.push(Case::Val(Val::X(ExpandedNodeId { node_id: NodeId::new(0, 1u32), namespace_uri: u, server_index: 0 }))); }
     }
     for n in 0..8usize {
         let b = ByteString::from((0..n).map(|i| (250 + i) as u8).collect::<Vec<u8>>());
